@@ -96,7 +96,7 @@ def fieldSat (c : Cfg) (name : Str) (tag : Option Str) (isSlice : Bool) (k : Opt
   match tag with
   | none => isZ v
   | some tv =>
-    match parseTag name tv with
+    match parseTagC c.repaired name tv with
     | .error _ => false
     | .ok (key, po) =>
       if key = "-".toList then isZ v
